@@ -91,7 +91,7 @@ pub fn scenarios() -> Vec<(&'static str, fn() -> Option<String>)> {
         ("leftover-staging-longer-than-rewrite (C10)", sc_leftover_staging),
         ("hash-mismatch-changes-nothing (C10)", sc_hash_mismatch),
         ("get-announces-what-it-streams (C10, H11)", sc_get_consistent),
-        ("lock-file-is-not-client-addressable (C03, H12)", sc_lock_file_addressable),
+        ("lock-file-is-not-client-addressable (C03, H14)", sc_lock_file_addressable),
         ("committed-content-is-the-streamed-content (C10)", sc_content_shapes),
     ]
 }
